@@ -127,12 +127,12 @@ Theorem C10_time_expr_simplify_refuted :
 Proof. exact time_expr_simplify_refuted. Qed.
 Print Assumptions C10_time_expr_simplify_refuted.
 
-Theorem C10_string_concat_simplify_refuted :
+Theorem C10_string_concat_simplify_prefix_refuted :
   exists en x y g, env_ok en /\ typeof (rw_lhs (rw_join_glue x y g)) = Some TString /\
     eval en (rw_lhs (rw_join_glue x y g)) = Some (RVal (VStr "a-b"), [Ev "f" [] (VStr "a"); Ev "g" [] (VStr "b"); Ev "h" [] (VStr "-")]) /\
     eval en (rw_rhs (rw_join_glue x y g)) = Some (RVal (VStr "a-b"), [Ev "f" [] (VStr "a"); Ev "h" [] (VStr "-"); Ev "g" [] (VStr "b")]).
-Proof. exact string_concat_simplify_refuted. Qed.
-Print Assumptions C10_string_concat_simplify_refuted.
+Proof. exact string_concat_simplify_prefix_refuted. Qed.
+Print Assumptions C10_string_concat_simplify_prefix_refuted.
 
 (* what a purity filter on $glue buys: with a glue that yields a value without events, independently of the
    history (literal, variable), the rewrite is an equivalence for all operands $x, $y *)
